@@ -188,3 +188,33 @@ Definition split_elem_color (P ncomponents i : Z) : Z := gen_zm_get (snd (fst (g
 (** int sender = color_roots[elem_colors[comp]] *)
 Definition split_sender (P ncomponents comp : Z) : Z :=
   gen_zm_get (snd (gen_split_maps P ncomponents)) (split_elem_color P ncomponents comp).
+
+(** * Reading aids for the statements of PV.Container4GenProofs / props/Properties_C13_source.v (nothing below is executed) *)
+
+(** one alias block: if (c) { if (!isInContainer(k)) ElementsMap.insert(pair(k, (e, permutations4[idx]))); } *)
+Definition alias_block (e : nat) (c : bool) (k : quad) (idx : nat) (st : cstate) : cstate :=
+  if c then (if negb (isInContainer_src st k) then fst (emap_insert st k (mkentry_src e idx)) else st) else st.
+
+Definition maps3 := (gen_zmap * gen_zmap * gen_zmap)%type.
+
+(** loop over the ranks: proc_colors[p] = colour of p; color_roots[colour] = p unless the colour has a root already *)
+Definition root_body (f : Z -> Z) (m : maps3) (i : Z) : maps3 :=
+  let '(pc, ec, cr) := m in
+  (gen_zm_set pc i (f i), ec, if negb (gen_zm_count cr (f i)) then gen_zm_set cr (f i) i else cr).
+(** loop over the components: elem_colors[i] = colour of component i *)
+Definition elem_body (g : Z -> Z) (m : maps3) (i : Z) : maps3 :=
+  let '(pc, ec, cr) := m in (pc, gen_zm_set ec i (g i), cr).
+
+(** what rank [rank] of [P] does in the two loops of the generated computeAll_split, in terms of the colour maps:
+    the computation loop computes the components of this rank's colour on the split communicator; the distribution loop marks
+    every part-carrying component Computed on the ranks other than the sender *)
+Definition split_compute_body (P rank n : Z) (x : xstate) (ckv : Z * (quad * nat)) : xstate :=
+  if Z.eqb (split_elem_color P n (fst ckv)) (split_proc_color P n rank) then lift_step compute_elem (snd (snd ckv)) x else x.
+
+Definition split_distribute_body (P rank n : Z) (np : nat -> Z) (x : xstate) (ckv : Z * (quad * nat)) : xstate :=
+  fold_left (fun x _ => if negb (Z.eqb rank (split_sender P n (fst ckv))) then set_status_src (snd (snd ckv)) x else x)
+            (gen_zrange 0 (np (snd (snd ckv)))) x.
+
+(** an entry (element for q0, permutation p) stored under key q returns chi q -- with the generated operator() *)
+Definition entry_denotes_src (V : Type) (vscale : Z -> V -> V) (chi : quad -> triple -> V) (p : perm4) (q0 q : quad) : Prop :=
+  forall n, vscale (fst (perm_eval_src p n)) (chi q0 (snd (perm_eval_src p n))) = chi q n.
